@@ -16,6 +16,7 @@
 import abc
 import collections
 import os
+import threading
 from unittest import mock
 
 from openpyxl import load_workbook, Workbook
@@ -23,6 +24,10 @@ from openpyxl.cell.cell import Cell, MergedCell
 from openpyxl.formula.translate import Translator
 
 from pycel.excelutil import AddressCell, AddressRange, is_address
+
+# openpyxl's date conversion is replaced (process wide) while cells are read:
+# one thread's restore must not hit another thread's read
+_FROM_EXCEL_LOCK = threading.RLock()
 
 ARRAY_FORMULA_NAME = '=CSE_INDEX'
 ARRAY_FORMULA_FORMAT = '{}(%s,%s,%s,%s,%s)'.format(ARRAY_FORMULA_NAME)
@@ -250,8 +255,8 @@ class ExcelOpxWrapper(ExcelWrapper):
 
     def load(self):
         # work around type coercion to datetime that causes some issues
-        with mock.patch('openpyxl.worksheet._reader.from_excel',
-                        self.from_excel):
+        with _FROM_EXCEL_LOCK, mock.patch(
+                'openpyxl.worksheet._reader.from_excel', self.from_excel):
             self.workbook = load_workbook(self.filename)
             self.workbook_dataonly = load_workbook(
                 self.filename, data_only=True)
@@ -347,8 +352,8 @@ class ExcelOpxWrapper(ExcelWrapper):
             sheet = self.workbook.active
             sheet_dataonly = self.workbook_dataonly.active
 
-        with mock.patch('openpyxl.worksheet._reader.from_excel',
-                        self.from_excel):
+        with _FROM_EXCEL_LOCK, mock.patch(
+                'openpyxl.worksheet._reader.from_excel', self.from_excel):
             # work around type coercion to datetime that causes some issues
 
             if address.is_unbounded_range:
